@@ -95,6 +95,7 @@ def case_lm(H, sname, mk_strategy, reject, ncalls, raise_at=None, model='SO3-act
     name = 'C08/LM/%s/reject=%d/calls=%d%s' % (sname, reject, ncalls, '' if raise_at is None else '/solver-raises-at-%d' % raise_at)
     if model != 'SO3-act':
         name += '/model=' + model
+    mkind = model
 
     def prog(m):
         mod, params, p, y, ps, ys, info = make_model(model, m)
@@ -128,7 +129,7 @@ def case_lm(H, sname, mk_strategy, reject, ncalls, raise_at=None, model='SO3-act
         # concrete run with a solver returning bad steps first: checks the bookkeeping clauses numerically
         from symx.engine import Ctx, SymMode
         with SymMode(Ctx()) as m1:
-            mod, params, p, y, ps, ys, info = make_model(model, m1)
+            mod, params, p, y, ps, ys, info = make_model(mkind, m1)
 
         class Rec(nn.Module):
             def __init__(s):
